@@ -417,6 +417,21 @@ class Proxy:
         self.np = np
         self.calls = []
         self.init_ok = True
+        # the node unpacks as many results as the shipped equations return: results appended to a function of the
+        # equation set (a gain, a diagnostic) are padded with zeros here
+        self.n_out = {}
+        try:
+            import io, contextlib
+            with contextlib.redirect_stdout(io.StringIO()):
+                from cyecca.estimate.attitude import algorithms
+                real = algorithms.eqs()["mrp"]
+            self.n_out = {k: f.n_out() for k, f in real.items()}
+        except Exception:       # noqa
+            pass
+
+    def _pad(self, name, tup):
+        n = self.n_out.get(name, len(tup))
+        return tuple(tup) + tuple(0.0 for _ in range(max(0, n - len(tup))))
 
     def eqs(self):
         np = self.np
@@ -428,23 +443,23 @@ class Proxy:
 
         def initialize(g, b, decl):
             self.calls.append(("initialize",))
-            return x.copy(), 0 if self.init_ok else 1
+            return self._pad("initialize", (x.copy(), 0 if self.init_ok else 1))
 
         def predict(t, x_, W_, om, sg, sn, dt):
             self.calls.append(("predict", float(dt)))
-            return x_, W_
+            return self._pad("predict", (x_, W_))
 
         def get_state(x_):
             self.calls.append(("get_state",))
-            return np.array([1.0, 0, 0, 0]), np.zeros(3), np.zeros(3)
+            return self._pad("get_state", (np.array([1.0, 0, 0, 0]), np.zeros(3), np.zeros(3)))
 
         def correct_accel(*a):
             self.calls.append(("correct_accel",))
-            return a[0], a[1], 0.0, np.zeros(2), np.ones(2), 0
+            return self._pad("correct_accel", (a[0], a[1], 0.0, np.zeros(2), np.ones(2), 0))
 
         def correct_mag(*a):
             self.calls.append(("correct_mag",))
-            return a[0], a[1], 0.0, np.zeros(1), np.ones(1), 0
+            return self._pad("correct_mag", (a[0], a[1], 0.0, np.zeros(1), np.ones(1), 0))
         return {"constants": constants, "initialize": initialize, "predict": predict, "get_state": get_state,
                 "correct_accel": correct_accel, "correct_mag": correct_mag}
 
